@@ -21,7 +21,7 @@ COMPONENTS_STUB = ["UDP socket (SimSocket) incl. IPV6_PKTINFO with multicast des
                    "event loop clock (virtual)"]
 ASSUMPTIONS = ["reaction table written from RFC 7252 section 4 and RFC 7967, independent of the code",
                "CON requests addressed to a multicast group are not generated (peer misbehaviour the statement does not cover)"]
-EXPECTED_PROBES = ["ping", "piggyback", "empty_ack_then_separate", "handler_at_delay_minus_eps", "handler_at_delay_plus_eps",
+EXPECTED_PROBES = ["duplicated_request", "ping", "piggyback", "empty_ack_then_separate", "handler_at_delay_minus_eps", "handler_at_delay_plus_eps",
                    "matched_con_response", "unmatched_con_response_unicast", "unmatched_con_response_multicast",
                    "no_response_suppressed", "misfit", "request_to_multicast", "reliable_to_multicast"]
 
@@ -75,6 +75,10 @@ def gen(r, tier):
                 op["t"] = round(t + 0.05, 4)
                 t += 0.05
             ops.append(op)
+            if op["cls"] == "request" and op.get("dst") == "uni" and r.chance(0.25):
+                # the network duplicates the request datagram; the copy arrives a little later
+                ops.append({"op": "dup", "of_t": op["t"], "t": round(op["t"] + r.choice([0.0, 0.01, 0.05, 0.095, 0.105, 0.3, 1.0]), 4)})
+    ops.sort(key=lambda o: o["t"])
     return {"ops": ops}
 
 
@@ -107,6 +111,12 @@ def systematic(tier):
                                      "dst": "uni"}]})
     for tun in (None, "Reliable", "Unreliable"):
         out.append({"ops": [{"op": "request", "t": 0.0, "target": "mcast", "tuning": tun}]})
+    for h in ("fast", "pre", "post", "slow", "raise", "slowraise"):
+        for typ in ("CON", "NON"):
+            for dt in (0.0, 0.01, 0.05, 0.105, 0.6):
+                out.append({"ops": [{"op": "inject", "t": 0.0, "type": typ, "cls": "request", "code": rc.GET, "handler": h,
+                                     "no_response": None, "dst": "uni"},
+                                    {"op": "dup", "of_t": 0.0, "t": dt}]})
     return out
 
 
@@ -220,7 +230,9 @@ def execute(sim, scn):
         if rec["live"] and op["cls"] == "response" and op["type"] in ("CON", "NON", "ACK"):
             matched_tokens.add(token)
             rec["matched"] = True
-        peer.send(dst, msg=m, fate=["deliver", 0.005])
+        rec["raw"] = rc.encode(m)
+        rec["ndup"] = 0
+        peer.send(dst, raw=rec["raw"], fate=["deliver", 0.005])
         sim.nontrivial = sim.nontrivial if hasattr(sim, "nontrivial") else False
         if not (op["cls"] == "request" and op["type"] == "CON" and op.get("handler") == "fast"
                 and op.get("no_response") is None):
@@ -245,9 +257,20 @@ def execute(sim, scn):
                 live.discard(tok)
         return live
 
+    def do_dup(op):
+        cands = [r_ for r_ in injected if abs(r_["op"]["t"] - op["of_t"]) <= TOL and r_["op"]["cls"] == "request"]
+        if not cands:
+            return
+        r_ = cands[-1]
+        r_["ndup"] += 1
+        sim.probe("duplicated_request")
+        peer.send(r_["dst"], raw=r_["raw"], fate=["deliver", 0.005])
+
     for i, op in enumerate(scn["ops"]):
         if op["op"] == "request":
             loop.at(op["t"], do_request, i, op)
+        elif op["op"] == "dup":
+            loop.at(op["t"], do_dup, op)
         else:
             loop.at(op["t"], do_inject, i, op)
 
@@ -301,13 +324,19 @@ def execute(sim, scn):
                 sim.probe("handler_at_delay_plus_eps")
             if suppressed:
                 sim.probe("no_response_suppressed")
-            if h != "missing" and len(inv) != 1:
+            if h != "missing" and len(inv) != 1:  # (copies are de-duplicated: still exactly one invocation)
                 sim.violation("C10/request-not-dispatched-once", dict(ident, n=len(inv)))
             if rsts:
                 sim.violation("C10/request-answered-with-rst", ident)
+            ndup = rec.get("ndup", 0)
             if typ == "CON":
-                if len(acks) != 1:
-                    sim.violation("C10/con-request-ack-count", dict(ident, n=len(acks), t=[e["t"] for e in acks]))
+                # copies of the request may make the endpoint repeat the acknowledgement it already sent, but there
+                # is only ever ONE acknowledgement message under this ID
+                if len({e["data"] for e in acks}) > 1:
+                    sim.violation("C10/con-request-acknowledged-twice", dict(ident, acks=[e["data"].hex() for e in acks][:4]))
+                    continue
+                if not (1 <= len(acks) <= 1 + ndup):
+                    sim.violation("C10/con-request-ack-count", dict(ident, n=len(acks), t=[e["t"] for e in acks], copies=ndup))
                     continue
                 a = acks[0]
                 piggy = dur < DELAY
@@ -327,7 +356,7 @@ def execute(sim, scn):
                     sim.probe("empty_ack_then_separate")
                     if a["msg"]["code"] != 0:
                         sim.violation("C10/late-response-piggybacked", dict(ident, ack=rc.summary(a["msg"])))
-                    if abs(a["t"] - (rec["t"] + DELAY)) > 1e-6:
+                    if abs(a["t"] - (rec["t"] + DELAY)) > 1e-6 and not ndup:
                         sim.violation("C10/empty-ack-time", dict(ident, t_ack=a["t"], expected=rec["t"] + DELAY))
                     mids = sorted({e["msg"]["mid"] for e in resps})
                     if suppressed:
@@ -354,7 +383,7 @@ def execute(sim, scn):
                     if resps:
                         sim.violation("C10/suppressed-response-sent", dict(ident, n=len(resps)))
                 else:
-                    if len(resps) != 1:
+                    if len({e["data"] for e in resps}) != 1:
                         sim.violation("C10/non-request-response-count", dict(ident, n=len(resps)))
                     else:
                         if resps[0]["msg"]["type"] != rc.NON:
